@@ -100,12 +100,19 @@ def run():
                 v.fail("race-detector", {"reports": n, "first": (m.group(1) if m else txt)[:2500]})
             elif rc != 0 and not fatal_map(v, txt, "License (race build)") and not library_panic(v, txt, "License (race build)"):
                 raise vlib.Inconclusive("License driver under -race failed:\n" + txt[-3000:])
+            for x in read_ndjson(out):      # what the helper processes (cold starts) saw under the detector
+                if x.get("ev") == "coldrace":
+                    v.fail("cold-start", x)
         else:
             if fatal_map(v, txt, "License") or library_panic(v, txt, "License"):
                 continue
             if rc != 0:
                 raise vlib.Inconclusive("License concurrent driver failed:\n" + txt[-3000:])
-            trace_v1(v, acc, read_ndjson(out), "License: concurrent vs sequential")
+            lrecs = read_ndjson(out)
+            for x in lrecs:
+                if x.get("ev") == "coldrace":
+                    v.fail("cold-start", x)
+            trace_v1(v, acc, [x for x in lrecs if x.get("ev") != "coldrace"], "License: concurrent vs sequential")
     # the v1 command line backend: 1000 worker goroutines over one License
     outb = os.path.join(sub("out"), "v1backend.ndjson")
     for race in (False, True):
